@@ -18,7 +18,7 @@ func init() {
 		Fn: checkC06, Level: "exploration",
 		Rule: "bounded-exhaustive enumeration of report lists: every ordered tuple of n<=4 (quick) / n<=5 full + n=6 reduced (thorough) reporters over values {..01,..02,..0a,..0A,66-hex over-long} x powers {1,2,3,5,1e7,2^62 (median) | 1,2,3,5,1000 (mode)} with total < 2^63, i.e. all multisets in all arrival orders; the real WeightedMedian/WeightedMode are called and compared with the definition (exact integer arithmetic); for WeightedMode every key order of its frequency map is additionally forced through the map-order seam; a case is non-trivial when it has >=2 distinct values; distinct = distinct (multiset, function) pairs",
 		Assume:      []string{"values are compared numerically for median and as strings for mode (the implementation's notion of identity)", "mode powers are capped at 1e7 in the alphabet because the implementation loops `power` times"},
-		QuickBudget: 4 * time.Minute, ThoroughBudget: 20 * time.Minute,
+		QuickBudget: 4 * time.Minute, ThoroughBudget: 15 * time.Minute,
 	})
 }
 
@@ -35,7 +35,128 @@ func hexNum(v string) *big.Int {
 	return n
 }
 
+// AggValueMonitor: every aggregate the chain itself produces is checked against the statement on the reports it lists,
+// with the method the query's reports were registered with (the enumeration below only calls the two aggregators directly).
+type AggValueMonitor struct{}
+
+func (AggValueMonitor) Pre(w *World) interface{} {
+	seen := map[string]bool{}
+	for _, a := range w.Aggregates() {
+		seen[fmt.Sprintf("%x/%d", a.QueryId, a.Ts)] = true
+	}
+	return seen
+}
+
+func (AggValueMonitor) Post(e *Explorer, before, w *World, pre interface{}, ev *Event, out Outcome) {
+	if out.Kind != "block" {
+		return
+	}
+	seen := pre.(map[string]bool)
+	var reports []oracletypes.MicroReport
+	for _, a := range w.Aggregates() {
+		if seen[fmt.Sprintf("%x/%d", a.QueryId, a.Ts)] || len(a.Agg.Reporters) == 0 {
+			continue
+		}
+		if reports == nil {
+			reports = w.Reports()
+		}
+		fail := func(oracle, detail string) {
+			e.Violate(w, oracle, "agg|chain|"+oracle, fmt.Sprintf("aggregate %x../%d: %s (after %s)", a.QueryId[:4], a.Ts, detail, ev.Label))
+		}
+		type rp struct {
+			val    string
+			pow    uint64
+			who    string
+			method string
+		}
+		var rs []rp
+		total := uint64(0)
+		for _, ar := range a.Agg.Reporters {
+			found := false
+			for _, mr := range reports {
+				if mr.Reporter == ar.Reporter && string(mr.QueryId) == string(a.QueryId) && mr.BlockNumber == ar.BlockNumber {
+					rs = append(rs, rp{mr.Value, mr.Power, mr.Reporter, mr.AggregateMethod})
+					total += mr.Power
+					found = true
+					break
+				}
+			}
+			if !found {
+				fail("listed-report-missing", fmt.Sprintf("lists a report of %s at height %d that is not stored", short(ar.Reporter), ar.BlockNumber))
+			}
+		}
+		if len(rs) == 0 {
+			continue
+		}
+		mixed := false
+		for _, r := range rs {
+			mixed = mixed || r.method != rs[0].method
+		}
+		if mixed {
+			// governance changed the query type's aggregation method while the round was open: the statement does not
+			// say which method such a round has
+			e.RC.Count("chain_aggregates_with_mixed_methods_skipped", 1)
+			continue
+		}
+		e.RC.Count("chain_aggregates_checked", 1)
+		e.RC.Distinct("chain_aggregate_methods", rs[0].method)
+		if a.Agg.ReporterPower != total {
+			fail("total-power", fmt.Sprintf("records power %d, its reports carry %d", a.Agg.ReporterPower, total))
+		}
+		named := false
+		for _, r := range rs {
+			if r.who == a.Agg.AggregateReporter && r.val == a.Agg.AggregateValue {
+				named = true
+			}
+		}
+		if !named {
+			fail("aggregate-reporter", "the named reporter did not report the chosen value")
+		}
+		switch rs[0].method {
+		case "weighted-median":
+			chosen := hexNum(a.Agg.AggregateValue)
+			if chosen == nil {
+				continue
+			}
+			below, upto := new(big.Int), new(big.Int)
+			for _, r := range rs {
+				if v := hexNum(r.val); v != nil {
+					if v.Cmp(chosen) < 0 {
+						below.Add(below, new(big.Int).SetUint64(r.pow))
+					}
+					if v.Cmp(chosen) <= 0 {
+						upto.Add(upto, new(big.Int).SetUint64(r.pow))
+					}
+				}
+			}
+			tot := new(big.Int).SetUint64(total)
+			if new(big.Int).Lsh(below, 1).Cmp(tot) > 0 || new(big.Int).Lsh(upto, 1).Cmp(tot) < 0 {
+				fail("not-the-weighted-median", fmt.Sprintf("value %s: power strictly below=%s, up to=%s, total=%s", short(a.Agg.AggregateValue), below, upto, tot))
+			}
+		case "weighted-mode":
+			byVal := map[string]uint64{}
+			max := uint64(0)
+			for _, r := range rs {
+				byVal[r.val] += r.pow
+				if byVal[r.val] > max {
+					max = byVal[r.val]
+				}
+			}
+			if byVal[a.Agg.AggregateValue] != max {
+				fail("not-a-weighted-mode", fmt.Sprintf("value %s is backed by power %d, the maximum is %d", short(a.Agg.AggregateValue), byVal[a.Agg.AggregateValue], max))
+			}
+		}
+	}
+}
+
 func checkC06(rc *RunCtx) {
+	// stateful part: the aggregates the chain produces along the oracle family of skeletons (+ deviations)
+	if rc.Replay == nil || isSkeleton(rc.Replay.Scenario) {
+		runSkeletons(rc, []Monitor{AggValueMonitor{}}, kOf(rc), "round", "tip-no-report", "governance", "dispute-sibling", "mode-after-median", "deposit-closing")
+		if rc.Replay != nil {
+			return
+		}
+	}
 	w := NewWorld(Config{})
 	k := w.App.OracleKeeper
 	ctx := w.Ctx
